@@ -219,24 +219,26 @@ TECHNIQUE = {
 
 # ---- parts added in seeding rounds 3 and 4 (appended to the rules above; details in DESIGN.md §3) ----
 RULE_EXTRA = {
-    "C01": "Also: bytes returned by earlier serialisations of the same object must stay intact; non-canonical float texts through FromBytes; a refused Set changes nothing.",
-    "C03": "Also: every variant parsed into a message object that parsed the intact message before; replays re-execute the worker's enumeration prefix (stateful parsers).",
-    "C04": "Also: read deadlines honoured in virtual time with a pausing peer at every single cut; BeginString look-alikes in the pool; the handler stopped while a callback runs with messages queued (delay-bounded schedules).",
-    "C05": "Also: one message object sent repeatedly with pauses and through a second session (SendingTime = instant on the wire, comp ids of the sending session).",
-    "C06": "Also: Logons lacking 98 / 108; quiet-session oracle after 35 s of silence; logon parameter sweep (32 intervals incl. int64 wrap-around values x method x Opts.Tags full/minimal).",
-    "C07": "Also: Logons lacking 98 / 108; logon parameter sweep followed by three periods of silence and a TestRequest.",
-    "C08": "Also: second logon on the same connection (previous interval equal / smaller / larger); transient message-store failure on the k-th save (k <= 4).",
-    "C09": "Also: second logon on the same connection; inbound retransmissions (PossDupFlag=Y); silence after a pending or completed logout must end in the disconnect event.",
-    "C10": "Also: expected inbound number produced by real inbound histories (arrivals in every receiving state, three kinds of logout) followed by a second Logon with number expected+{0,1,3}.",
-    "C11": "Also: family (iii) CheckSum field not last; family (iv) framing fields in every order with impossible values; family (v) every field and every group count of every template (13 message types), one at a time, with each of 29 odd values (empty, lone sign, one byte, over-long digits, half a timestamp, non-ASCII), as a top-level field, inside the first and inside the second entry of its group(s).",
-    "C12": "Also: regeneration over an earlier, longer generation; every type re-spelled consistently in schema and mapping; one Generator object executed twice through the library API.",
-    "C14": "Also: Logout+Logon event; schedule part with a stalled writer (4-slot queue, 8 requests, delay bound 1/2).",
-    "C15": "Also: endings that begin while the session's own TestRequest is outstanding; Stop with a full outgoing queue.",
-    "C16": "Also: intact admin messages without MsgSeqNum; a tag ending in 34 / text 34= ahead of MsgSeqNum; 32 s of silence; connection-level part (damaged message + valid follower through the real Conn, 360 cases).",
-    "C17": "Also: as C01 (earlier bytes intact, non-canonical float texts, refused Set).",
+    "C01": "Also: bytes returned by earlier serialisations of the same object must stay intact; non-canonical float texts through FromBytes; a refused Set changes nothing. Rounds 6-13: a fifth of the templates use tags of 7-11 digits, a quarter 8-digit framing tags; String values with '%'; nested groups whose entries carry different non-zero counts; identical neighbouring entries; a float sweep of 10,500 arithmetic results.",
+    "C03": "Also: every variant parsed into a message object that parsed the intact message before; replays re-execute the worker's enumeration prefix (stateful parsers). Rounds 6-13: every third damaged variant is also parsed through a DefaultUnmarshaller whose field validator is an application decorator (implements Do only).",
+    "C04": "Also: read deadlines honoured in virtual time with a pausing peer at every single cut; BeginString look-alikes in the pool; the handler stopped while a callback runs with messages queued (delay-bounded schedules). Rounds 6-13: own write before a 7 s pause of the peer; another connection of the acceptor ending by an error of its own (message without MsgType) before/while this one's messages arrive; the stream ending at every position inside the last message (positions in the trailer also under delay bound 1); one field of 70,000 bytes; one connection after another on one acceptor with messages queued for the first peer.",
+    "C05": "Also: one message object sent repeatedly with pauses and through a second session (SendingTime = instant on the wire, comp ids of the sending session). Rounds 6-13: timestamp sweep (150 instants around the ends of a millisecond, second, minute, hour, day, month, 28/29 February, year; format exact, |52 - send instant| < 1 ms); identifier part (two accepting sessions built from one settings object, every interleaving of their scripts, a refused Logon answered with the identifiers mirrored from it); a counter store that takes 5 ms per number with three senders; Logon with ResetSeqNumFlag=Y in the history alphabet.",
+    "C06": "Also: Logons lacking 98 / 108; quiet-session oracle after 35 s of silence; logon parameter sweep (32 intervals incl. int64 wrap-around values x method x Opts.Tags full/minimal). Rounds 6-13: events Logon(141=Y), Heartbeat with zero-padded MsgSeqNum (+9), App(35=a); sweep: second logon of an initiating session through LogonRequest after a peer-begun and after a locally begun logout; the world's callbacks query the session.",
+    "C07": "Also: Logons lacking 98 / 108; logon parameter sweep followed by three periods of silence and a TestRequest. Rounds 6-13: events Heartbeat with zero-padded MsgSeqNum, App(35=a).",
+    "C08": "Also: second logon on the same connection (previous interval equal / smaller / larger); transient message-store failure on the k-th save (k <= 4). Rounds 6-13: inbound TestRequest as an action kind; sessions writing timestamps in Asia/Tokyo and America/New_York (skipped without a time-zone database).",
+    "C09": "Also: second logon on the same connection; inbound retransmissions (PossDupFlag=Y); silence after a pending or completed logout must end in the disconnect event. Rounds 6-13: inbound TestRequest as an action kind; time-zone cases as C08.",
+    "C10": "Also: expected inbound number produced by real inbound histories (arrivals in every receiving state, three kinds of logout) followed by a second Logon with number expected+{0,1,3}. Rounds 6-13: one refused application message at every position (its number stays unused); 130-message (T: 260) histories with 12 ranges; a re-stamping application handler registered before the session starts; a store that keeps counterparties apart; histories crossing one million; SequenceReset and dropped-connection (no logout, next session on the same store) histories; two sessions on one store answering ResendRequests at once.",
+    "C11": "Also: family (iii) CheckSum field not last; family (iv) framing fields in every order with impossible values; family (v) every field and every group count of every template (13 message types), one at a time, with each of 29 odd values (empty, lone sign, one byte, over-long digits, half a timestamp, non-ASCII), as a top-level field, inside the first and inside the second entry of its group(s). Rounds 6-13: session part also with every one-byte MsgType value and extreme BeginSeqNo/EndSeqNo tokens (-2^63, -2^62, -1, 2^63-1).",
+    "C12": "Also: regeneration over an earlier, longer generation; every type re-spelled consistently in schema and mapping; one Generator object executed twice through the library API. Rounds 6-13: remove-pipeline and empty-container mutations (the generator may refuse); accept/refuse verdict determinism; output-directory forms mixed case / space / percent / non-ASCII / symbolic link; a second Generator on the same parsed schema object with another type mapping compared with a fresh parse.",
+    "C14": "Also: Logout+Logon event; schedule part with a stalled writer (4-slot queue, 8 requests, delay bound 1/2). Rounds 6-13: events ResendRequest(1,0) and TestRequest with zero-padded BodyLength (two paddings).",
+    "C15": "Also: endings that begin while the session's own TestRequest is outstanding; Stop with a full outgoing queue. Rounds 6-13: Logout from inside the logon callback; an application logout callback returning false before Stop; initiator re-logon through LogonRequest after both logout endings.",
+    "C16": "Also: intact admin messages without MsgSeqNum; a tag ending in 34 / text 34= ahead of MsgSeqNum; 32 s of silence; connection-level part (damaged message + valid follower through the real Conn, 360 cases). Rounds 6-13: events Logon(141=Y), Heartbeat with zero-padded MsgSeqNum, App(35=a); three sessions built from one options object, one of them given an unmarshaller of its own.",
+    "C17": "Also: as C01 (earlier bytes intact, non-canonical float texts, refused Set). Rounds 6-13: as C01; between two serialisations of a message another message of the same type with another BeginString is parsed into an object of its own (the first one's bytes must not change).",
     "C18": "Also: look-alikes of BeginString / BodyLength / MsgType / MsgSeqNum in the connection phase; session-level decoys of MsgType / MsgSeqNum with the SequenceReset builder configured.",
-    "C19": "Also: handler removal by the registered id; retransmissions through re-stamping handlers; the session's final Logout refused by the store or a handler; inbound backlog at stop under delay-bounded schedules.",
-    "C20": "Also: full ResendRequests right after the senders' second round and after a timer heartbeat; Logon-Logout-Logon within the first polling step.",
+    "C19": "Also: handler removal by the registered id; retransmissions through re-stamping handlers; the session's final Logout refused by the store or a handler; inbound backlog at stop under delay-bounded schedules. Rounds 6-13: retransmissions refused by a handler / by the store, then a send; an error callback that sends a message itself; handlers registered for the other-case and padded spellings of the type.",
+    "C20": "Also: full ResendRequests right after the senders' second round and after a timer heartbeat; Logon-Logout-Logon within the first polling step. Rounds 6-13: variants register-during-logon, error-stop (StopWithError + context cancel with blocked senders), failing-store (error reports while the peer logs out and on), logged-out timer expiry followed by an inbound message.",
+    "C02": "Rounds 6-13: as C01; after the round trip one field of one group entry of the PARSED message is changed in place and exactly that field must change on the wire (entries decoded from identical bytes are entries of their own).",
+    "C13": "Rounds 6-13: c13x scenarios - a client refused in the acceptor callback (peer open / hung up / reset), the initiator's handler stopped (directly, by the silent-peer rule) while the dispatch loop is inside a slow callback; delay bound 1 (T: 2).",
 }
 for _p, _x in RULE_EXTRA.items():
     CHECKS[_p]["rule"] += " " + _x
